@@ -258,6 +258,34 @@ def kani_cmd(group, harnesses, jobs, extra=()):
     return cmd
 
 
+
+def tree_hash(ws, group, cfg_inject):
+    """Content hash of everything a harness result depends on: the scratch copy's sources and
+    manifests (after injection), the contract modules, and the tool versions."""
+    h = hashlib.sha256()
+    h.update(b"kani-0.68.0/cbmc-6.11/vcheck-cache-v1")
+    paths = []
+    for root in ("scpi/src", "scpi-derive/src", "scpi-contrib/src"):
+        for dp, dn, fn in os.walk(os.path.join(ws, root)):
+            for f in fn:
+                paths.append(os.path.join(dp, f))
+    for f in ("Cargo.toml", "Cargo.lock", "scpi/Cargo.toml", "scpi-derive/Cargo.toml", "scpi-contrib/Cargo.toml"):
+        paths.append(os.path.join(ws, f))
+    for m in ["spec", "vk", "hook_response", "hook_tokenizer"] + group["modules"]:
+        paths.append(os.path.join(KDIR, m + ".rs"))
+    for pth in sorted(set(paths)):
+        if os.path.exists(pth):
+            h.update(pth.replace(ws, "").encode())
+            h.update(open(pth, "rb").read().replace(ws.encode(), b"<WS>"))
+    h.update(json.dumps({k: group.get(k) for k in ("crate", "features", "kani_args", "zflags", "harness_timeout")}, sort_keys=True).encode())
+    return h.hexdigest()
+
+
+def cache_dir():
+    d = os.path.join(SCRATCH, "result-cache")
+    os.makedirs(d, exist_ok=True)
+    return d
+
 def target_dir():
     return os.path.join(SCRATCH, "target")
 
@@ -525,9 +553,37 @@ def do_check(pid, cfg, tier, seed, ws, injected, args, t0):
                 continue
             timeout = g.get("timeout", {}).get(tier, 1500 if tier == "quick" else 7200) \
                 if isinstance(g.get("timeout"), dict) else g.get("timeout", 1500 if tier == "quick" else 7200)
-            cmd, rc, out, wall = run_kani_group(ws, g, hs, args.jobs, timeout, os.path.join(workdir, g["name"] + ".log"))
-            cmds.append(" ".join(cmd))
-            recs = parse_kani(out)
+            # Content-addressed reuse: a harness result is a function of (sources, contracts, tools).
+            # Only SUCCESSFUL results are reused, and only when VERIF_CACHE != 0.
+            use_cache = os.environ.get("VERIF_CACHE", "1") != "0" and not args.patch
+            th = tree_hash(ws, g, None)
+            cached = {}
+            if use_cache:
+                for h in hs:
+                    cf = os.path.join(cache_dir(), hashlib.sha256((th + h).encode()).hexdigest() + ".json")
+                    if os.path.exists(cf):
+                        try:
+                            cached[h] = json.load(open(cf))
+                        except ValueError:
+                            pass
+            todo = [h for h in hs if h not in cached]
+            if todo:
+                cmd, rc, out, wall = run_kani_group(ws, g, todo, args.jobs, timeout, os.path.join(workdir, g["name"] + ".log"))
+                cmds.append(" ".join(cmd))
+                recs = parse_kani(out)
+            else:
+                cmd, rc, out, wall = kani_cmd(g, hs, args.jobs), 0, "", 0.0
+                cmds.append(" ".join(cmd) + "   # all results of this group reused from the content-addressed cache")
+                recs = {}
+            for h, r in cached.items():
+                r = dict(r)
+                r["cached"] = True
+                recs[h] = r
+            for h in todo:
+                r = recs.get(h)
+                if r and r.get("status") == "SUCCESSFUL" and r.get("failed", 1) == 0 and r.get("covers", 0) == r.get("covers_sat", 0):
+                    cf = os.path.join(cache_dir(), hashlib.sha256((th + h).encode()).hexdigest() + ".json")
+                    json.dump({k: r.get(k) for k in ("harness", "full", "checks", "failed", "covers", "covers_sat", "status", "time_s", "failed_checks", "raw")}, open(cf, "w"))
             rep = {"group": g["name"], "engine": "kani/cbmc", "bounded": bool(g.get("bounded")),
                    "bounds": g.get("bounds", "none (loop-free full-domain, or unrolled to a width fixed by the standard with unwinding assertions)"),
                    "wall_s": round(wall, 1), "harnesses": []}
@@ -558,7 +614,7 @@ def do_check(pid, cfg, tier, seed, ws, injected, args, t0):
                     proof_obl += n
                     proof_dis += n - f
                 solver_time += r.get("time_s") or 0
-                rep["harnesses"].append({k: r.get(k) for k in ("harness", "checks", "failed", "covers", "covers_sat", "status", "time_s")})
+                rep["harnesses"].append({k: r.get(k) for k in ("harness", "checks", "failed", "covers", "covers_sat", "status", "time_s", "cached")})
                 if r["status"] == "FAILED" and f > 0:
                     for desc, file, line in r["failed_checks"]:
                         failures.append((g, r, desc.strip().strip('"'), "%s:%s" % (file, line)))
@@ -705,6 +761,8 @@ def do_check(pid, cfg, tier, seed, ws, injected, args, t0):
             "bounded": bounded_any,
             "exhaustive": (not bounded_any) and not undecided and not violations,
             "solver_time_s": round(solver_time, 2),
+            "harness_results_reused_from_cache": sum(1 for rep in group_reports for h in rep.get("harnesses", []) if h.get("cached")),
+            "cache_note": "a harness result is reused only when the SHA-256 of all crate sources of the scratch copy (after injection), manifests and contract modules is identical to a run that ended SUCCESSFUL; set VERIF_CACHE=0 to force re-verification",
             "known_findings_observed": [k["what"] for k, _, _ in known_hits],
             "undecided": undecided,
             "explanation": cfg.get("explanation", ""),
